@@ -124,6 +124,27 @@ theorem applyPicks_id {α : Type} : ∀ (is : List Nat) (l : List α),
       rw [set_getElem_self]; exact applyPicks_id is l
     · exact applyPicks_id is l
 
+/-- the picks act on positions: applying them commutes with mapping the list -/
+theorem applyPicks_map {α β : Type} (f : α → β) : ∀ (picks : List (Nat × Nat)) (l : List α),
+    applyPicks (l.map f) picks = (applyPicks l picks).map f
+  | [], _ => rfl
+  | (d, s) :: picks, l => by
+    simp only [applyPicks, getElem?_map]
+    cases hs : l[s]? with
+    | none => simpa using applyPicks_map f picks l
+    | some x =>
+      simp only [Option.map_some]
+      rw [← map_set]; exact applyPicks_map f picks _
+
+theorem eq_map_range_getD {α : Type} (l : List α) (d : α) :
+    l = (List.range l.length).map fun i => l.getD i d := by
+  apply ext_getElem?
+  intro i
+  rw [getElem?_map]
+  by_cases hi : i < l.length
+  · simp [hi, getD_eq_getElem?_getD]
+  · simp [hi]
+
 /-- invariant of the second loop of Sample acting through `ps[dst] = ps[src]`:
     the first `k` entries are always distinct entries (as a multiset: a sub-multiset) of the
     original list, the entries from `k` on are untouched -/
